@@ -28,7 +28,7 @@ class TranslateError(Exception):
 TOKEN = re.compile(r"""
     \s*(?:
       (?P<eps>std::numeric_limits<\s*\w+\s*>::epsilon\(\))
-    | (?P<norm>matrix\s*\.\s*infinity_norm\(\))
+    | (?P<norm>(?:matrix|scaledMatrix)\s*\.\s*infinity_norm\(\))
     | (?P<cast>(?:real_type|K)\s*\(\s*(?P<castnum>[0-9.]+(?:[eE][-+]?[0-9]+)?)\s*\))
     | (?P<num>(?:[0-9]+\.?[0-9]*|\.[0-9]+)(?:[eE][-+]?[0-9]+)?)
     | (?P<idx>(?P<base>[A-Za-z_][A-Za-z_0-9]*)\s*\[\s*(?P<i>[0-9])\s*\](?:\s*\[\s*(?P<j>[0-9])\s*\])?)
@@ -55,7 +55,7 @@ def tokenize(src):
             out.append(("num", m.group("num")))
         elif m.group("idx"):
             base, i, j = m.group("base"), m.group("i"), m.group("j")
-            out.append(("var", {"matrix": "m", "eigenValues": "l", "eigenvalues": "l", "vec0": "a", "vec1": "b"}.get(base, base)
+            out.append(("var", {"matrix": "m", "scaledMatrix": "m", "eigenValues": "l", "eigenvalues": "l", "vec0": "a", "vec1": "b"}.get(base, base)
                         + i + (j if j is not None else "")))
         elif m.group("id"):
             out.append(("id", m.group("id")))
@@ -247,8 +247,22 @@ def translate(repo):
     s1 = one(r"temp\s*\[1\]\s*\[1\]\s*-=\s*eigenValues\s*\[\s*([01])\s*\]\s*;", v2, "2x2 temp[1][1] shift")
     if s0 != s1:
         raise TranslateError("2x2: the two diagonal shifts use different eigenvalues")
-    if not re.search(r"FieldMatrix\s*<\s*K\s*,\s*2\s*,\s*2\s*>\s*temp\s*=\s*matrix\s*;", v2):
-        raise TranslateError("2x2: `temp = matrix` not found")
+    # max-norm preconditioning of the 2x2 path (as in the 3x3 path): either complete or absent
+    pre = bool(re.search(r"K\s+maxAbsElement\s*=\s*\(\s*isnormal\s*\(\s*matrix\.infinity_norm\(\)\s*\)\s*\)\s*\?\s*matrix\.infinity_norm\(\)\s*:\s*K\(1\.0\)\s*;\s*"
+                         r"(?:const\s+)?FieldMatrix\s*<\s*K\s*,\s*2\s*,\s*2\s*>\s+scaledMatrix\s*=\s*matrix\s*/\s*maxAbsElement\s*;", v2))
+    mname = "scaledMatrix" if pre else "matrix"
+    other = "matrix" if pre else "scaledMatrix"
+    if not re.search(r"Impl::eigenValues2dImpl\(\s*%s\s*,\s*eigenValues\s*\)\s*;" % mname, v2):
+        raise TranslateError("2x2: eigenValues2dImpl is not called on %s" % mname)
+    if pre != bool(re.search(r"eigenValues\s*\*=\s*maxAbsElement\s*;\s*$", v2.strip())):
+        raise TranslateError("2x2: preconditioning and its reversal do not match")
+    vecpart = v2[v2.index("if constexpr"):]
+    if re.search(r"\b%s\b" % other, vecpart):
+        raise TranslateError("2x2: eigenvector code refers to %s although the eigenvalues belong to %s" % (other, mname))
+    out.append("/-- is the 2x2 path preconditioned by `scaledMatrix = matrix / maxAbsElement` (and `eigenValues *= maxAbsElement`) -/\n"
+               "def ev2_preconditioned : Bool := %s\n" % ("true" if pre else "false"))
+    if not re.search(r"FieldMatrix\s*<\s*K\s*,\s*2\s*,\s*2\s*>\s*temp\s*=\s*%s\s*;" % mname, v2):
+        raise TranslateError("2x2: `temp = %s` not found" % mname)
     out.append("/-- `temp[i][i] -= eigenValues[%s];` -/\ndef ev2_shiftIndex : Nat := %s\n" % (s0, s0))
     thr = one(r"if\s*\(\s*temp\s*\.\s*infinity_norm\(\)\s*<=\s*(.+?)\)\s*\{", v2, "2x2 identity threshold")
     emit("ev2_identThreshold", ["eps", "normA"], "K", tr(thr, ["eps", "normA"]),
